@@ -23,7 +23,7 @@ RULE = (
     "with another name in play, or with an internal temporary"
 )
 SPACE = {
-    "quick": "25 roles x 57 pool names (every single assignment) + 46 related role pairs x 72 ordered pairs of 9 substring/prefix/case-related names; 7 battery sections, only the sections that use a role are re-run",
+    "quick": "25 roles x 60 pool names (every single assignment) + 46 related role pairs x 72 ordered pairs of 9 substring/prefix/case-related names; 7 battery sections, only the sections that use a role are re-run",
     "thorough": "all role pairs within a section x the 42 ordered name pairs",
 }
 BOUNDS = {"quick": {}, "thorough": {}}
@@ -40,7 +40,9 @@ POOL = ["c", "e", "n", "t", "r", "l", "f", "i", "o", "u", "x", "g", "T", "xleft"
         # words of the metadata conventions the parsers read
         "padding", "high", "low", "both", "none", "node", "face",
         # parameter names of DataArray.rename / isel / transpose / pad
-        "new_name_or_name_dict", "names", "indexers", "missing_dims", "transpose_coords", "end_values"]
+        "new_name_or_name_dict", "names", "indexers", "missing_dims", "transpose_coords", "end_values",
+        # identifiers outside ASCII (Python identifiers all the same), and one that starts with an underscore / a digit-free mix
+        "\u03be", "l\u00e4nge", "_9"]
 # DataArray.squeeze() of the pinned xarray fails for a dimension called "drop", "indexers" or "missing_dims" (keywords of the
 # isel it calls); the face-connected
 # padding path relies on it, so that one (name, section) combination is outside what xgcm can be held to
